@@ -29,6 +29,9 @@
 //	    successful `install X` directly followed by `uninstall X` restores the hooks
 //	    (absent == blank) and leaves no filter.lfs.{clean,smudge,process,required}.
 //
+// Fault dimension (faults.go): clauses 1 and 2 are also judged for single commands that
+// run while one stat-/open-family system call on a user hook's path fails (strace inject).
+//
 // Ragged-indented LFS texts (equal to an LFS text only after stripping each line's
 // own indentation) are never judged; empty filter values count as unset.
 package main
@@ -262,7 +265,10 @@ func (c *caseRun) cwdOf(cmd cmdSpec) string {
 	return c.workDir
 }
 
-func (c *caseRun) exec(cmd cmdSpec) sbx.Result {
+func (c *caseRun) exec(cmd cmdSpec) sbx.Result { return c.execVia(cmd, nil) }
+
+// execVia runs the command, optionally behind a wrapper (strace ...) given as argv prefix.
+func (c *caseRun) execVia(cmd cmdSpec, wrapper []string) sbx.Result {
 	o := sbx.RunOpt{Dir: c.cwdOf(cmd)}
 	switch cmd.Kind {
 	case "clean":
@@ -271,6 +277,10 @@ func (c *caseRun) exec(cmd cmdSpec) sbx.Result {
 		o.Stdin = strings.NewReader("this is not a pointer\n")
 	case "filter-process":
 		o.Stdin = strings.NewReader("")
+	}
+	if len(wrapper) > 0 {
+		args := append(append(append([]string{}, wrapper[1:]...), "git-lfs"), cmd.argv(c.filePath)...)
+		return c.env.Run(o, wrapper[0], args...)
 	}
 	return c.env.Run(o, "git-lfs", cmd.argv(c.filePath)...)
 }
@@ -585,6 +595,7 @@ type caseResult struct {
 	round    int
 	landedOK int
 	landedNo int
+	fault    *faultOutcome // fault cases only (faults.go)
 }
 
 // runCloneCase: `git lfs clone` installs hooks into the fresh clone (installHooks(false)).
@@ -651,6 +662,9 @@ func runCloneCase(spec caseSpec) (cr caseResult) {
 func runCase(spec caseSpec) (cr caseResult) {
 	if spec.Template == "clone" {
 		return runCloneCase(spec)
+	}
+	if spec.Fault != nil {
+		return runFaultCase(spec)
 	}
 	cr.spec = spec
 	cr.cmds = map[string]int{}
@@ -741,7 +755,7 @@ func runCase(spec caseSpec) (cr caseResult) {
 func main() {
 	defer sbx.RemoveBase()
 	run := evid.New("C20", "exploration")
-	run.Rule = "seeded generator; case = pre-state {4 hooks x 23 content classes (absent, empty, blank, current, each historical text, re-indented, ragged, user script, user script with the LFS line, LFS text + extra line, LFS text + >=700 blank bytes + user code beyond byte 1024, same inside the window, 1-edit mutants, other hook's LFS text, CRLF, >1024-byte user script, non-executable, symlink to user/LFS/padded/dangling, directory)} x {filter.lfs.clean|smudge|process|required in {current, skip-smudge, historical, custom, empty}} x config store {~/.gitconfig, XDG, included file, repo config, config.worktree, --file} x core.hooksPath {unset, absolute, with space, relative, ~/} x layout {plain, linked work tree} + sequence of 1..6 commands (install/update/uninstall with --local/--worktree/--file/--force/--skip-smudge/--skip-repo/--manual, install hooks, uninstall hooks, track/untrack/clean/smudge/filter-process/fsck/migrate import) run from root/sub-directory/outside; 2 of 120 cases run `git lfs clone` with hooks coming from init.templateDir. Every (hook class, hook type) pair is the focus hook of one case per 120; class = (template, focus hook:class, focus filter store:key:class, hooksPath, layout, sequence shape)."
+	run.Rule = "seeded generator; case = pre-state {4 hooks x 23 content classes (absent, empty, blank, current, each historical text, re-indented, ragged, user script, user script with the LFS line, LFS text + extra line, LFS text + >=700 blank bytes + user code beyond byte 1024, same inside the window, 1-edit mutants, other hook's LFS text, CRLF, >1024-byte user script, non-executable, symlink to user/LFS/padded/dangling, directory)} x {filter.lfs.clean|smudge|process|required in {current, skip-smudge, historical, custom, empty}} x config store {~/.gitconfig, XDG, included file, repo config, config.worktree, --file} x core.hooksPath {unset, absolute, with space, relative, ~/} x layout {plain, linked work tree} + sequence of 1..6 commands (install/update/uninstall with --local/--worktree/--file/--force/--skip-smudge/--skip-repo/--manual, install hooks, uninstall hooks, track/untrack/clean/smudge/filter-process/fsck/migrate import) run from root/sub-directory/outside; 2 of 120 cases run `git lfs clone` with hooks coming from init.templateDir. Every (hook class, hook type) pair is the focus hook of one case per 120; class = (template, focus hook:class, focus filter store:key:class, hooksPath, layout, sequence shape). Fault dimension: 18 (quick) / 240 (thorough) further cases = one non-forced command of {update, install --local, install, an implicit hook installer, install hooks, uninstall --local, uninstall, uninstall hooks} facing a pre-existing hook git-lfs did not generate (12 content classes) while one system-call family {stat, open} on that hook's path fails once with {EIO, EACCES, ESTALE}, injected with strace -P <hook> -e inject=...; the injection sites come from one uninjected strace discovery run per command; a run counts only if the strace log shows the injected call; class additionally carries fault=<family>-<errno>/<command>."
 	run.Assumptions = []string{
 		"the list of texts/values git-lfs has generated (oracle.go) is complete: transcribed from lfs/hook.go and lfs/attribute.go",
 		"LFS-generated = equal to a listed text after removing common indentation and trimming; ragged-indented variants are not judged; blank hooks count as absent; empty filter values count as unset",
@@ -749,6 +763,7 @@ func main() {
 		"symlinked hooks: only the content of the link's target is judged",
 		"--system is exercised through --file (the real system config must not be touched); multi-valued filter keys inside one file are not generated",
 		"conflict reporting (clause 3) is required of explicit install/update/install hooks only: non-zero exit or a message naming the hook/key",
+		"fault dimension: a fault = one failing stat-/open-family call on the path of the user's hook (never ENOENT), delivered by strace to the git-lfs process only (git child processes are detached); under a delivered fault only hook/filter preservation and crashes are judged, not conflict reporting; filter.lfs.* reads/writes go through `git config` children and are not faulted",
 	}
 	n := run.N(120, 4080)
 	run.SetMinEvaluations(n / 2)
@@ -756,12 +771,48 @@ func main() {
 	for i := range specs {
 		specs[i] = genCase(run.Seed, i)
 	}
+	// ---- fault dimension (faults.go): discovery of the injection sites, then a fixed number of injected runs ----
+	nFault := run.N(18, 240)
+	found := map[string]touches{}
+	{
+		var dmu sync.Mutex
+		var dwg sync.WaitGroup
+		for li, label := range faultLabels {
+			dwg.Add(1)
+			go func(li int, label string) {
+				defer dwg.Done()
+				t, problem := discover(label, n+nFault+li)
+				dmu.Lock()
+				defer dmu.Unlock()
+				run.Count("fault_discovery_runs", 1)
+				if problem != "" {
+					run.Count("fault_discovery_failed", 1)
+					fmt.Fprintln(os.Stderr, "note:", problem)
+					return
+				}
+				found[label] = t
+				for name, k := range t {
+					run.Count("fault_discovery_"+label+"_"+name, int64(k))
+				}
+			}(li, label)
+		}
+		dwg.Wait()
+	}
+	combos := combosOf(found)
+	run.Count("fault_injection_sites", int64(len(combos)))
+	if len(combos) > 0 {
+		for k := 0; k < nFault; k++ {
+			specs = append(specs, genFaultCase(run.Seed, k, n+k, combos))
+		}
+	} else {
+		run.Count("fault_runs_not_started", int64(nFault))
+	}
 	workers := runtime.NumCPU()
 	if workers > 16 {
 		workers = 16
 	}
 	jobs := make(chan caseSpec)
-	resc := make(chan caseResult, n)
+	resc := make(chan caseResult, len(specs))
 	var wg sync.WaitGroup
 	for w := 0; w < workers; w++ {
 		wg.Add(1)
@@ -783,12 +834,13 @@ func main() {
 	wg.Wait()
 	close(resc)
 
-	byIdx := make([]caseResult, n)
+	byIdx := make([]caseResult, len(specs))
 	for cr := range resc {
 		byIdx[cr.spec.Index] = cr
 	}
 	seen := map[string]int{}
 	var infra []string
+	faultDelivered, faultWhy := 0, "no injection site found by the discovery runs (strace unavailable?)"
 	for _, cr := range byIdx {
 		if cr.infra != "" {
 			infra = append(infra, cr.infra)
@@ -811,7 +863,38 @@ func main() {
 			}
 			return l
 		}()}
-		run.Case(cr.spec.className(), sample)
+		if fo := cr.fault; fo != nil {
+			f := cr.spec.Fault
+			if fo.notStarted != "" {
+				run.Count("fault_runs_not_started", 1)
+				faultWhy = fo.notStarted
+				continue
+			}
+			run.Count("fault_runs", 1)
+			if fo.delivered {
+				faultDelivered++
+				run.Count("fault_injections_delivered", 1)
+				run.Count("fault_delivered_"+f.Sys+"_"+f.Errno, 1)
+				run.Count("fault_delivered_cmd_"+f.Label, 1)
+				run.Count("fault_delivered_hook_"+cr.spec.FocusCls, 1)
+				run.Count("fault_user_hook_checks_under_fault", cr.cnt.userHookChecks)
+				run.Count("fault_conflict_unreported_under_fault_not_judged", int64(fo.unreported))
+				if fo.exitCode != 0 {
+					run.Count("fault_cmd_failed_under_fault", 1)
+				} else {
+					run.Count("fault_cmd_exit0_under_fault", 1)
+				}
+				sample["fault"] = f
+			} else {
+				// judged like a fault-free run, but it is not an evaluation of the fault dimension
+				run.Count("fault_injections_not_delivered", 1)
+				run.Count("fault_not_delivered_"+f.Sys+"_"+f.Label+"_hooksPath_"+cr.spec.HooksPath+"_"+cr.spec.Layout, 1)
+				faultWhy = "strace ran but logged no (INJECTED) call on the hook path"
+			}
+		}
+		if cr.fault == nil || cr.fault.delivered {
+			run.Case(cr.spec.className(), sample)
+		}
 		total := 0
 		for k, v := range cr.cmds {
 			run.Count("cmd_"+k, int64(v))
@@ -847,6 +930,9 @@ func main() {
 			}
 			run.Violation(f.sig, f.what, f.detail)
 		}
+	}
+	if nFault > 0 && faultDelivered == 0 {
+		run.Inconclusive(fmt.Sprintf("fault dimension: none of the %d injected runs was delivered: %s", nFault, faultWhy))
 	}
 	if len(infra) > 0 {
 		sbx.RemoveBase()
